@@ -356,6 +356,14 @@ type niEvent struct {
 }
 
 // vh drive-netindex n=<requests> rules=<max rules, 0 = all> out=<trace.ndjson>
+// niRequest: the request of a logged browser request, or - URL "hostname:<name>" - the hostname request for a name
+func niRequest(rq reqJSON, t rules.RequestType) *rules.Request {
+	if h, ok := strings.CutPrefix(rq.URL, "hostname:"); ok {
+		return rules.NewRequestForHostname(h)
+	}
+	return rules.NewRequest(rq.URL, rq.FrameURL, t)
+}
+
 func cmdDriveNetIndex(args []string) error {
 	m := argMap(args)
 	rnd := rand.New(rand.NewSource(seed()*53 + 9))
@@ -458,6 +466,13 @@ func cmdDriveNetIndex(args []string) error {
 			reqJSON{URL: "http://" + host + "/page#/ads/banner-1", FrameURL: "", Cpt: "image"},
 			reqJSON{URL: "http://" + host + "/#!/sponsored/x#section-advert", FrameURL: "http://" + host + "/", Cpt: "xmlhttprequest"})
 	}
+	// hostname requests - what a DNS engine asks of the same index: the text that is indexed and probed is "http://<name>",
+	// made-up scheme included, so rules that spell out the scheme are filed under windows of it
+	for i := 0; i < 8; i++ {
+		host := fmt.Sprintf("dnsname%d.example", i)
+		keep = append(keep, []string{"http://" + host + "^", "|http://" + host + "|", "://" + host + "^", "||" + host + "^$important"}[i%4])
+		reqs = append(reqs, reqJSON{URL: "hostname:" + host}, reqJSON{URL: "hostname:sub." + host})
+	}
 	// three lists: plain; with a byte order mark and a title line; with CRLF line ends.  Where a rule sits in its
 	// list (and so its storage index) must not matter.
 	third := len(keep) / 3
@@ -521,7 +536,7 @@ func cmdDriveNetIndex(args []string) error {
 		if !ok {
 			t = rules.TypeOther
 		}
-		q := rules.NewRequest(rq.URL, rq.FrameURL, t)
+		q := niRequest(rq, t)
 		ev := niEvent{Query: rq.URL, Eng: []string{}, Scan: []string{}}
 		pv := safeCall(func() {
 			for _, r := range eng.MatchAll(q) {
@@ -579,7 +594,7 @@ func cmdDriveNetIndex(args []string) error {
 		if !ok {
 			t = rules.TypeOther
 		}
-		q := rules.NewRequest(rq.URL, rq.FrameURL, t)
+		q := niRequest(rq, t)
 		cev := niEvent{Query: rq.URL + " (8 goroutines, cold file-backed lists)", Eng: []string{}, Scan: seqAnswers[i].Scan}
 		if pv := safeCall(func() {
 			for _, r := range ceng.MatchAll(q) {
